@@ -737,6 +737,7 @@ def run(prog, run):
     rule_listener_moves_out(prog, run)
     rule_saved_markup(prog, run)
     rule_offset_no_wrap(prog, run)
+    rule_integer_fixpoint(prog, run)
 
     r5 = run.rule('C02.R5', 'parsers terminate on sibling lists: every loop guarded by isNull() of a local DOM node advances that node on every path back to '
                             'the loop head (continue included)', floor=18)
@@ -1004,3 +1005,18 @@ def rule_offset_no_wrap(prog, run):
                       'next pass changes it again' % f.fmt(bad[0], inline=False)[:50])
     else:
         run.ok(rid, f.loc(), 'hours and minutes are computed arithmetically')
+
+
+# --------------------------------------------------------------------------- R14: integers survive the second pass
+def rule_integer_fixpoint(prog, run):
+    rid = run.rule('C02.R14', 'an integer a parser accepts is written back in a form the same parser accepts with the same value: the text conversion is neither narrower than the member '
+                              'nor unsigned into a signed member of the same width (= C01.R11; a count or priority in the upper half of the unsigned range would be written with a minus '
+                              'sign and dropped or zeroed on the next pass)', floor=1)
+    fns = [f for f in prog.fns.values() if '/src/' in f.file]
+    found = [x for x in C01._reader_shape_findings(prog, fns) if x[0] == 'R11']
+    run.instance(rid)
+    if found:
+        for r, f, i, key, msg in found:
+            run.violation(rid, key, f.loc(i), msg)
+    else:
+        run.ok(rid, 'src', 'no narrowing / sign-changing text conversion among the parse functions')
